@@ -39,3 +39,17 @@ Example C15_ex_small_bound :
   let s := run c (init c [[0;1;2;3;4];[5;6;7;8;9];[10;11;12;13;14]]) (rr 2 120) in
   main s = MDone /\ length (yielded s) = 15.
 Proof. vm_compute. split; reflexivity. Qed.
+
+(* the chunker never hands main an empty chunk and never produces anything beyond the first min(len, iterable_len) elements
+   (shared with C14; the loop body is translated from utils.chunk_tasks on every run): main draws from the input only
+   through it, one non-empty chunk per dispatch step, so the dispatch-loop bound above is a bound on input consumption *)
+From Mpv Require Import GenChunk Chunk ChunkSpec ChunkPartition.
+Theorem C15_chunks_nonempty_and_cut :
+  forall (num : Type) (N : numops num) (A : Type) is_nd has_len (xs : list A) ilen cs ns,
+  (forall l, ilen = Some l -> 0 <= l) ->
+  match chunk_tasks N is_nd has_len xs ilen cs ns with
+  | Ok chunks => concat chunks = take (limit_of xs ilen) xs /\ Forall (fun c => c <> []) chunks
+  | Err e => cs = None /\ (ns = None \/ (ilen = None /\ has_len = false)) /\ e = 1
+  end.
+Proof. intros; apply chunk_partition; assumption. Qed.
+Print Assumptions C15_chunks_nonempty_and_cut.
